@@ -59,7 +59,8 @@ func Color4(b0, b1, b2, b3 uint8) ivg.Color {
 
 // Blend is one channel of the blend formula.
 func Blend(t, c0, c1 uint8) uint8 {
-	return uint8(((255-uint32(t))*uint32(c0) + uint32(t)*uint32(c1) + 128) / 255)
+	p, q := uint32(255-t), uint32(t)
+	return uint8((p*uint32(c0) + q*uint32(c1) + 128) / 255)
 }
 
 // Resolve1 resolves a 1-byte colour against palette and registers, as the
